@@ -15,16 +15,17 @@ RULE = ("An honest two-party exchange (matching codes, 0-4 distinct side-tagged 
         "version, pake, dilate-0, garbage, non-ASCII digit variants); relabel side (victim's own = reflection, "
         "peer's, fresh, non-ASCII variant); deliver a copy of the victim's own message under another side; replay "
         "a body under another phase; inject random / element-shaped / non-JSON PAKE or data bodies; duplicate; a "
-        "raw third participant adding messages to the mailbox. Oracle (behavioural, no keys): per receiver the "
+        "raw third participant adding messages to the mailbox; delivering a (possibly re-labelled) non-PAKE message ahead of the PAKE. Oracle (behavioural, no keys): per receiver the "
         "application messages delivered are a positional prefix of the peer's send_message arguments, versions "
         "(if delivered) equal the peer's app versions exactly and are delivered once, verifiers (if both exist) are "
-        "equal, each client keeps running or closes with an exception; an unattacked run completes fully. "
+        "equal, a message whose side label was rewritten is never the source of a delivery, each client keeps running or closes with an exception; an unattacked run completes fully. "
         "Non-trivial = >=1 manipulated message actually reached a client. Distinct = (features, trace). An "
         "enumerated single-operation sweep over every operation x message position of a fixed exchange runs "
         "in both tiers.")
 ASSUMPTIONS = ["structural manipulations only, no cryptanalytic forgery", "simulated mailbox link, real server"]
 
-OPS = ["flip", "trunc", "extend", "phase", "side", "reflect", "xphase", "inject", "pake", "dup", "third", "replay"]
+OPS = ["flip", "trunc", "extend", "phase", "side", "reflect", "xphase", "inject", "pake", "dup", "third", "replay",
+       "early", "early-side", "early-phase"]
 PHASES = ["0", "1", "2", "3", "version", "pake", "dilate-0", "zz", "7", "0١", "٠", "1 ", "-1", ""]
 
 
@@ -58,6 +59,7 @@ class Adversary:
         self.reached = 0
         self.seen = []            # (side, phase, body) seen in flight to anyone
         self.third = None
+        self.relabelled = []      # (victim, phase) of genuine peer messages whose side label was rewritten
 
     def choices(self, rec, tape):
         if not self.ops:
@@ -122,6 +124,8 @@ class Adversary:
             elif op == "side":
                 news = [sides[0], sides[1], "feedface01", m["side"] + "é", sides[vi] + "é"][tape.below(5)]
                 if news != m["side"]:
+                    if m["side"] == sides[1 - vi]:
+                        self.relabelled.append((vi, m["phase"]))
                     m["side"] = news
                     setat(c, j, m)
                     done = True
@@ -136,6 +140,26 @@ class Adversary:
                 self.marked.add(p)
                 c.s2c.insert(j + tape.below(len(c.s2c) - j + 1), p)
                 done = True
+        elif op.startswith("early") and cands:
+            # reordering is within the server's power: deliver one of the peer's non-PAKE messages BEFORE
+            # the peer's PAKE (it then waits in the client's pre-key queue), optionally re-labelled
+            pool = [x for x in cands if x[3].get("phase") != "pake" and x[3].get("side") != sides[x[0]]]
+            if pool:
+                vi, c, j, m = pool[tape.below(len(pool))]
+                idx_pake = [k for k, p in enumerate(c.s2c) if b'"phase": "pake"' in p or b'"phase":"pake"' in p]
+                if idx_pake and idx_pake[0] < j:
+                    m = dict(m)
+                    if op == "early-side":
+                        self.relabelled.append((vi, m["phase"]))
+                        m["side"] = [sides[vi], "feedface05", m["side"] + "x"][tape.below(3)]
+                    elif op == "early-phase":
+                        m["phase"] = PHASES[tape.below(len(PHASES))]
+                    del c.s2c[j]
+                    p = json.dumps(m).encode()
+                    if op != "early":
+                        self.marked.add(p)
+                    c.s2c.insert(idx_pake[0], p)
+                    done = True
         elif op == "replay" and conns and self.seen:
             # re-deliver any message seen earlier in the session, unchanged
             vi, c = conns[tape.below(len(conns))]
@@ -269,6 +293,20 @@ def run_case(P):
     ver = [[e[1] for e in rec.evs[i] if e[0] == "verifier"] for i in range(2)]
     if ver[0] and ver[1] and ver[0][0] != ver[1][0]:
         res.violate("delivered", "verifiers differ; ops %r" % (adv.applied,), input_class="verifier-mismatch")
+    # a message whose side label was rewritten must be ignored (or scare the client): if its phase was
+    # delivered to the application although no copy with the genuine label ever reached that client,
+    # the re-labelled copy was accepted
+    sides = [w._boss._side for w in rec.ws]
+    for (vi, ph) in adv.relabelled:
+        genuine = any(j == vi and m.get("type") == "message" and m.get("side") == sides[1 - vi] and m.get("phase") == ph
+                      for (j, n, m, st_) in rec.delivered)
+        if genuine:
+            continue
+        got_it = (ph == "version" and any(e[0] == "versions" for e in rec.evs[vi])) or \
+                 (ph.isdigit() and ph.isascii() and len(rec.msgs(vi)) > int(ph))
+        if got_it:
+            res.violate("relabel", "receiver %d delivered phase %r although the only copy it was given carried a "
+                        "rewritten side label; ops %r" % (vi, ph, adv.applied), input_class="relabelled-message-accepted")
     if not adv.applied and not res.inconclusive:
         snap = rec.stable_snapshot
         for i in range(2):
